@@ -112,6 +112,7 @@ class Region:
         self.written = set()
         self.log = []           # kind == "log": (offset term (64 bit), nbytes, value term, path index)
         self._big = None
+        self.words = {}         # (offset, nbytes) -> term last stored there as a whole (exact round trips)
 
     def copy(self):
         r = Region(self.name, self.base, self.size, self.writable, self.kind, self.default)
@@ -119,6 +120,7 @@ class Region:
         r.written = set(self.written)
         r.log = list(self.log)
         r._big = self._big
+        r.words = dict(self.words)
         return r
 
     def byte(self, off, st):
@@ -197,12 +199,17 @@ class State:
         """8-byte scalar cell; returns its address"""
         r = self.add_region(name, 8)
         if value is not None:
+            value = simp(value)
+            r.words[(0, 8)] = value
             for i, b in enumerate(bytes_of(value, 8)):
                 r.data[i] = simp(b)
         return r.base
 
     def read_cell(self, name):
         r = self.region(name)
+        w = r.words.get((0, 8))
+        if w is not None:
+            return w
         return simp(join([r.byte(i, self) for i in range(8)]))
 
     def pathcond(self):
@@ -406,6 +413,9 @@ class Executor:
             if off < 0 or off + n > r.size:
                 self.oblige(st, "bounds", z3.BoolVal(False), "load of %d bytes at %s%+d outside [0,%d)" % (n, r.name, off, r.size), ins)
                 return z3.BitVec("oob_load_%x_%d" % (ins.addr, st.steps), n * 8)
+            w = r.words.get((off, n))
+            if w is not None:
+                return w
             return simp(join([r.byte(off + i, st) for i in range(n)]))
         offt = simp(BV(off & (2 ** 64 - 1), 64) + rest)
         self.oblige(st, "bounds", z3.ULE(offt, BV(r.size - n, 64)) if r.size >= n else z3.BoolVal(False),
@@ -453,6 +463,10 @@ class Executor:
             self.oblige(st, "bounds", z3.BoolVal(False), "store of %d bytes at %s%+d outside [0,%d)" % (n, r.name, off, r.size), ins)
             return
         r._big = None
+        for (o2, n2) in [k for k in r.words if k[0] < off + n and off < k[0] + k[1]]:
+            del r.words[(o2, n2)]
+        val = simp(val)
+        r.words[(off, n)] = val
         for i, b in enumerate(bytes_of(val, n)):
             r.data[off + i] = simp(b)
             r.written.add(off + i)
